@@ -17,6 +17,7 @@ import (
 	"fmt"
 	"io"
 	"iter"
+	"log/slog"
 	"sort"
 	"strings"
 	"sync"
@@ -63,13 +64,13 @@ func (eng) Rule(mode string) string {
 	if mode == "slot" {
 		return "a real operator with 1..3 upstream source runners receives barriers of checkpoint a from a strict subset (possibly empty) of its runners, is deployed again (surviving worker), optionally receives stale barriers of a from a strict subset after the redeploy (known finding), then receives all barriers of checkpoint b; a retention update is sent before the first deploy; parking is observed at the operator.align.park hook, not by time-out; non-trivial: at least one barrier was registered before the second deploy"
 	}
-	return "histories over WorkerCount 1..3 with 0..2 standby nodes per kind: registrations in random order, heartbeats, graceful deregistration and kills (heartbeat expiry by advancing the frozen clock) of assembly members before / during deployment (Deploy gated) and during an in-flight checkpoint (some acks delivered) - periodic, a requested savepoint (HandleCreateSavepoint on an idle store) or a periodic checkpoint upgraded to a savepoint (request folding into it) -, failed deployments, checkpoint rounds with acks in random order, late acks of members of the lost assembly while the new assembly's Deploy is still gated (single and all of them), stale / foreign / duplicate acks; ticks at any time through a clock whose tickers honour Stop (only a live checkpoint ticker of the job fires). Non-trivial: at least one deployment completed and at least one fault or checkpoint happened; distinct by hash of the op list."
+	return "histories over WorkerCount 1..3 with 0..2 standby nodes per kind: registrations in random order, heartbeats, graceful deregistration and kills (heartbeat expiry by advancing the frozen clock) of assembly members before / during deployment (Deploy gated) and during an in-flight checkpoint (some acks delivered) - periodic, a requested savepoint (HandleCreateSavepoint on an idle store) or a periodic checkpoint upgraded to a savepoint (request folding into it) -, failed deployments, checkpoint rounds with acks in random order, late acks of members of the lost assembly while the new assembly's Deploy is still gated (single and all of them), stale / foreign / duplicate acks; slow storage (the file write of a fully acknowledged checkpoint N is held while N+1 is started, acknowledged and published, then released, then a member is lost and the job redeploys); ticks at any time through a clock whose tickers honour Stop (only a live checkpoint ticker of the job fires). Non-trivial: at least one deployment completed and at least one fault or checkpoint happened; distinct by hash of the op list."
 }
 
 // ---------------------------------------------------------------- ops (JSON, self-contained)
 
 type jop struct {
-	K   string `json:"k"`             // reg | dereg | deregm | killm | hb | adv | fin | tick | sp | ackm | ackn | ackall | ackold | ackallold
+	K   string `json:"k"`             // reg | dereg | deregm | killm | hb | adv | fin | tick | sp | holdw | relw | ackm | ackn | ackall | ackold | ackallold
 	Who string `json:"who,omitempty"` // "op" | "sr"
 	N   int    `json:"n,omitempty"`   // node number / member position / milliseconds / permutation seed
 	D   int    `json:"d,omitempty"`   // ack: checkpoint id = last started id + d
@@ -82,13 +83,64 @@ type memLoc struct {
 	mu      sync.Mutex
 	files   map[string][]byte
 	written chan string
+	// slow storage: when holdNext is set the next job-snapshot write blocks until released (one at a time)
+	holdNext bool
+	held     chan struct{} // non-nil while a write is held; closed to release it
+	heldSig  chan struct{} // signalled when a write starts being held
 }
 
-func newMemLoc() *memLoc { return &memLoc{files: map[string][]byte{}, written: make(chan string, 1024)} }
+func newMemLoc() *memLoc {
+	return &memLoc{files: map[string][]byte{}, written: make(chan string, 1024), heldSig: make(chan struct{}, 16)}
+}
+
+func (m *memLoc) isHeld() bool {
+	m.mu.Lock()
+	defer m.mu.Unlock()
+	return m.held != nil
+}
+
+// armHold arms the gate unless a write is held already; reports whether it is armed
+func (m *memLoc) armHold() {
+	m.mu.Lock()
+	if m.held == nil {
+		m.holdNext = true
+	}
+	m.mu.Unlock()
+}
+
+// releaseHeld lets the held write return; false when none is held
+func (m *memLoc) releaseHeld() bool {
+	m.mu.Lock()
+	ch := m.held
+	m.held = nil
+	m.mu.Unlock()
+	if ch == nil {
+		return false
+	}
+	close(ch)
+	return true
+}
 func (m *memLoc) Write(path string, data io.Reader) (string, error) {
 	b, err := io.ReadAll(data)
 	if err != nil {
 		return "", err
+	}
+	if strings.HasSuffix(path, ".snapshot") {
+		m.mu.Lock()
+		var gate chan struct{}
+		if m.holdNext && m.held == nil {
+			m.holdNext = false
+			gate = make(chan struct{})
+			m.held = gate
+		}
+		m.mu.Unlock()
+		if gate != nil {
+			select {
+			case m.heldSig <- struct{}{}:
+			default:
+			}
+			<-gate
+		}
 	}
 	m.mu.Lock()
 	m.files[path] = b
@@ -307,6 +359,7 @@ type harness struct {
 	memSrs        []string
 	prevOps       []string // members of the assembly before that one
 	prevSrs       []string
+	heldCk        uint64 // id of the checkpoint whose snapshot write is held (0 none)
 	lastCk        uint64          // last checkpoint id started
 	known         map[string]bool // nodes the harness registered and neither deregistered nor killed
 }
@@ -475,6 +528,7 @@ type step struct {
 }
 
 func newHarness(wc int, deadlineMs int) (*harness, error) {
+	slog.SetDefault(slog.New(sigHandler{}))
 	h := &harness{wc: wc, clock: &stopClock{FrozenClock: clocks.NewFrozenClock()}, loc: newMemLoc(), arrived: make(chan struct{}, 4096),
 		gate: &gate{ch: make(chan struct{})}, known: map[string]bool{}}
 	cfg := &config.Config{WorkerCount: wc, KeyGroupCount: keyGroups, WorkingStorageLocation: "mem://w",
@@ -672,6 +726,47 @@ func (h *harness) savepoint() step {
 	return step{"OSavepoint", o}
 }
 
+// storeWrote is signalled by the slog handler when the store logs that it finished the state update that follows a
+// snapshot file write (a synchronisation signal only: nothing is compared with it; without it the wait times out)
+var storeWrote = make(chan struct{}, 64)
+
+type sigHandler struct{ slog.Handler }
+
+func (sigHandler) Enabled(context.Context, slog.Level) bool { return true }
+func (sigHandler) Handle(_ context.Context, r slog.Record) error {
+	if r.Message == "store wrote checkpoint" {
+		select {
+		case storeWrote <- struct{}{}:
+		default:
+		}
+	}
+	return nil
+}
+func (s sigHandler) WithAttrs([]slog.Attr) slog.Handler { return s }
+func (s sigHandler) WithGroup(string) slog.Handler      { return s }
+
+func (h *harness) releaseWrite() step {
+	o := obs{}
+	for len(storeWrote) > 0 {
+		<-storeWrote
+	}
+	ck := h.heldCk
+	if h.loc.releaseHeld() {
+		h.heldCk = 0
+		select {
+		case <-storeWrote:
+		case <-time.After(waitFor):
+			timedOut()
+		}
+		if ck != 0 && h.loc.snapshot(ck) != nil && h.job.VerifCurrentCheckpointID() == ck {
+			o.Published = ck
+		}
+	}
+	st, deps := h.settle()
+	o.Status, o.Deps = statusN(st), deps
+	return step{"OReleaseW", o}
+}
+
 func (h *harness) ack(who, id string, ck uint64) (s step) {
 	o := obs{}
 	h.mu.Lock()
@@ -701,6 +796,7 @@ func (h *harness) ack(who, id string, ck uint64) (s step) {
 	h.mu.Lock()
 	finishing := h.splitCkpts > before
 	h.mu.Unlock()
+	heldWrite := false
 	if finishing && o.Res != 2 {
 		// a publication was started: wait for the snapshot file and for it to become the current checkpoint
 		deadline := time.Now().Add(waitFor)
@@ -709,12 +805,18 @@ func (h *harness) ack(who, id string, ck uint64) (s step) {
 				o.Published = ck
 				break
 			}
+			if h.heldCk == 0 && h.loc.isHeld() { // the storage holds THIS file write: nothing is published until it is released
+				heldWrite = true
+				h.heldCk = ck
+				break
+			}
 			select {
 			case <-h.loc.written:
+			case <-h.loc.heldSig:
 			case <-time.After(50 * time.Microsecond):
 			}
 		}
-		if o.Published == 0 {
+		if o.Published == 0 && !heldWrite {
 			timedOut()
 		}
 		if jc := h.loc.snapshot(ck); o.Published != 0 && (jc == nil || len(jc.OperatorCheckpoints) == 0) {
@@ -782,6 +884,12 @@ func (h *harness) run(ops []jop) []step {
 			out = append(out, h.tick())
 		case "sp":
 			out = append(out, h.savepoint())
+		case "holdw": // the next job-snapshot file write will block in the storage
+			h.loc.armHold()
+			h.job.VerifSync()
+			out = append(out, step{"OHoldW", obs{Status: statusN(h.job.VerifStatus())}})
+		case "relw": // the held write returns
+			out = append(out, h.releaseWrite())
 		case "ackm":
 			if id, ok := h.member(op.Who, op.N); ok {
 				out = append(out, h.ack(op.Who, id, h.ckID(op.D)))
@@ -822,6 +930,7 @@ func (h *harness) run(ops []jop) []step {
 			}
 		}
 	}
+	h.loc.releaseHeld()
 	// let a gated deployment finish so that no goroutine of this case stays parked
 	for i := 0; i < 4 && h.pendingDeploy; i++ {
 		h.release(nil)
@@ -893,6 +1002,7 @@ func (e eng) Execute(mode string, c *hx.Case) (*hx.Result, error) {
 	prevRunning := false
 	pendingCk := false
 	pendingSp := false
+	heldSeen, pubsSinceHoldRelease := false, false
 	for i, s := range steps {
 		if s.op == "OSavepoint" && s.o.Res == 0 {
 			if len(s.o.Started) > 0 {
@@ -954,6 +1064,23 @@ func (e eng) Execute(mode string, c *hx.Case) (*hx.Result, error) {
 		}
 		if s.o.Status == 2 && (strings.HasPrefix(s.op, "ODereg") || strings.HasPrefix(s.op, "OAdv")) {
 			tags["membership-change-during-deploy"] = true
+		}
+		if s.op == "OReleaseW" {
+			if s.o.Published != 0 {
+				tags["held-write-released-becomes-current"] = true
+			} else if heldSeen {
+				tags["held-write-released-after-newer-published"] = true
+			}
+			heldSeen = false
+		}
+		if s.op == "OHoldW" {
+			heldSeen = true
+		}
+		if len(s.o.Deps) > 0 && pubsSinceHoldRelease {
+			tags["redeploy-after-superseded-late-write"] = true
+		}
+		if s.op == "OReleaseW" && s.o.Published == 0 {
+			pubsSinceHoldRelease = true
 		}
 		if s.o.Res == 1 {
 			tags["ack-rejected"] = true
